@@ -13,7 +13,30 @@ CLAIMED = {
             "DESIGN.md section 5 C04"),
 }
 
-PENDING_REASON = "check not yet built in this revision of /verif (no technical obstacle; see DESIGN.md section 5)"
+SEARCH_NOTE = ("Trusts the harness oracle's reading of README 'Search semantics' (independent JSON token walker, tokenizers, tree evaluation) "
+               "and encoding/json; rows whose semantics the documentation leaves open (top-level \"\" key, invalid UTF-8 / surrogate escapes in raw JSON) impose no obligation; "
+               "bloom filters can hide a missing index entry behind a false positive (half the cases use FPR<=1e-6).")
+
+CLAIMED.update({
+    "C01": ("exploration",
+            "property-based testing (rapid): model-based differential — generated ingest/flush/restart/merge/external-writer histories and bloom/regex/prefilter query trees against an independent reference implementation of the search semantics",
+            "Generated search over histories x configurations x queries with an oracle that shares no walker, tokenizer fast path, matcher or file reader with the library; every stored row the oracle says must match has to be returned. Includes external-writer files (absent filters, multi-chunk filter regions) and conforming MetaStore variants. Exploration: absence is not established.",
+            SEARCH_NOTE, "DESIGN.md section 5 C01"),
+    "C02": ("exploration",
+            "property-based testing (rapid): same generated runs as C01 judged for exactness — no false positives, no duplicates, exact multiset without prefilter, whole-block granularity bracketed by metadata-satisfies / metadata-present for prefilters, stored world unchanged by queries",
+            "Upper-bound oracle on the same generated space as C01; block membership is read back through the public helpers so the 'set of whole blocks' clause is checked on the data. Exploration.",
+            SEARCH_NOTE, "DESIGN.md section 5 C02"),
+    "C11": ("exploration",
+            "property-based testing (rapid): metamorphic relation before/after Merge on generated populations (row multiset, partition, range coverage, query answers), with the independent search oracle for the prefilter superset clause",
+            "Generated populations written by several engine configurations and the external writer, 1-3 merges under generated limits, queries run before and after each merge. Exploration.",
+            SEARCH_NOTE, "DESIGN.md section 5 C11"),
+    "C12": ("exploration",
+            "property-based testing (rapid): invariant over generated merges — provenance of every output block and file derived from unique row ids, checked against the configured limits",
+            "Same generated merges as C11; limits are checked on what merges produce, with limits drawn tight so that about half the cases have a binding limit. No claim beyond the generator's population sizes (<= ~12 files, <= ~10 blocks each).",
+            "File size measured as sum of on-disk block sizes; provenance relies on the harness's unique row ids.", "DESIGN.md section 5 C12"),
+})
+
+PENDING_REASON ="check not yet built in this revision of /verif (no technical obstacle; see DESIGN.md section 5)"
 
 def main():
     props = [json.loads(l) for l in open(os.path.join(HERE, "properties.jsonl"))]
